@@ -295,6 +295,7 @@ func RunC07(c *engine.Ctx) {
 	c.Add("transitions", evals)
 	c.Add("traces_validated_against_impl", evals)
 	c.Sample(map[string]interface{}{"cksumtype": 16, "len": 5, "usage": 15, "checks": "value equals RFC; verify accepts it; rejects every truncation, 256 one-byte extensions, every bit flip, flipped data, other key, other usages"})
+	siblingEtypes(c)
 	concurrentSchedules(c, "C07")
 	c.Cov["rule"] = "checksum type(6) x data length 0..200 x usage set x 2 keys for values; for lengths {0,1,16,63,64,200}: every truncation, every one-byte extension, every single-bit flip, data bit flips, other key, other usages for verification; checksum ids -200..200 for the registry; distinct = exercised (type,len,usage) value cells and (type, mutation class) rejections"
 }
